@@ -49,6 +49,11 @@ def render(body, prefix="m", style=None, rng=None):
             head, _, tail = text.rpartition(" ")
             if head.strip() not in ("#", ""):
                 return [head + " \\", "    " + tail]
+        if x < style.get("cont", 0) + 0.04 and " " in text.strip():
+            head, _, tail = text.rpartition(" ")
+            if head.strip() not in ("#", ""):
+                # a block comment inside the directive whose first line ends in '*' (tokens follow on the next line)
+                return [head + " /* note *", " * more */ " + tail]
         if x < style.get("cont", 0) + style.get("comment", 0):
             return [text + rng.choice(["  /* c */", " // c", " /* a */ /* b */"])]
         if x < style.get("cont", 0) + style.get("comment", 0) + style.get("indent", 0):
